@@ -531,6 +531,17 @@ def rule_del(ctx, rep, rid):
     for t, s in pre:
         hit, _ = d.reach([d.blocks[s].insts[0]], orr + xs + gc, include_start=True)
         rep.check(hit is None, rid, "del.already-removed", "an already REMOVED node returns failure without any write", "already removed node is still modified", [t.where()])
+    # the word written by the ownership exchange is the node's *current* next word (re-read after REMOVED was set, when
+    # only flag bits can still change - except through a concurrent replace, whose `new | REMOVED | OWNER` must survive)
+    # with REMOVAL_OWNER or-ed in; a value remembered from before the REMOVED `or` can overwrite a committed replace
+    for x in xs:
+        e = mm.effect_of(x)
+        v = ir.expr(d, e.val, 6)
+        shape = v[0] == "bin" and v[1] == "or" and v[3] == ("c", B.OWNER) and v[2][0] == "load" and v[2][1].endswith(NEXT)
+        fresh = shape and all(d.dominates(o, d.insts[v[2][3]]) for o in orr)
+        rep.check(shape and fresh, rid, "del.owner-xchg-value", "ownership exchange writes (re-read next word | REMOVAL_OWNER)",
+                  "ownership exchange writes %s: not the next word re-read after REMOVED was set; a replace that committed in between (old->next = new|REMOVED|OWNER) "
+                  "is overwritten and readers positioned on the old node skip the new one" % ir.expr_str(v), [x.where()])
     # return 0 iff xchg result lacked OWNER
     r = d.rets()[0]
     cases = paths.ret_cases(d)
@@ -632,6 +643,44 @@ def rule_gc(ctx, rep, rid):
         for c_ in gcc:
             same = c_.d["aps"][1] is not None and mm.effect_of(orr[0]).ap["base"] == c_.d["aps"][1]["base"]
             rep.check(same, rid, "remove_table.gc-target", "gc is asked to unlink the node that was flagged", "gc target differs from the flagged node", [c_.where()])
+
+
+def rule_emptywalk(ctx, rep, rid):
+    """Emptiness walks (cds_lfht_delete_bucket, cds_lfht_is_empty): every next word loaded during the walk is classified
+    (BUCKET bit tested) before the walk can conclude `empty` - including the word of the last node, whose successor is END.
+    A walk that tests is_end() first never looks at the flags of the tail node: a table whose only user node is the tail is
+    reported empty and destroyed."""
+    B = bits(ctx)
+    for name in ("cds_lfht_delete_bucket", "cds_lfht_is_empty"):
+        f = fn(ctx, name)
+        rep.touch(f)
+        comps = f.sccs()
+        pat.require(comps, "%s: emptiness loop vanished" % name)
+        walk = [l for l in pat.loads(f, NEXT) if any(l.blk.id in c for c in comps) and not pat.from_fn_opt(l, "bucket_at")]
+        # the walk loop is the first one (delete_bucket has a second, sanity-check loop over the bucket array)
+        first = min(comps, key=lambda c: min(c))
+        walk = [l for l in walk if l.blk.id in first]
+        pat.require(walk, "%s: no load of ->next in the walk" % name)
+        if name == "cds_lfht_delete_bucket":
+            targets = pat.calls(f, "cds_lfht_free_bucket_table") + pat.loads(f, "cds_lfht.size")
+        else:
+            targets = None
+        for L in walk:
+            def about_L(e):
+                if e[0] == "load":
+                    return e[3] == L.id
+                if e[0] == "phi":
+                    ph = f.insts[e[1]]
+                    return any(ir.strip_casts(f, v) == ["i", L.id] or tuple(ir.strip_casts(f, v)) == ("i", L.id) for v, _b in ph.d["inc"])
+                return False
+            edges = []
+            for t, s_, a in pat.branch_edges_on(f, lambda a: a[0] in ("eq", "ne") and a[2] == ("c", 0) and a[1][0] == "bin" and a[1][1] == "and" and a[1][3] == ("c", B.BUCKET) and about_L(a[1][2])):
+                edges.append((t.blk.id, s_))
+            if not edges:
+                rep.bad(rid, "%s.classifies-every-word@%d" % (name, L.line), "the next word loaded at %s is never tested for the BUCKET flag" % L.short(), [L.where()])
+                continue
+            rep.must_take_edge(rid, "%s.classifies-every-word@%d" % (name, L.line), f, [L], targets, edges, to_exit=(targets is None), include_start=False,
+                               avoid=lambda i, L=L: i is L, what="every next word loaded by the emptiness walk is tested for BUCKET before the walk concludes")
 
 
 def rule_destroy(ctx, rep, rid):
